@@ -20,7 +20,7 @@ const dynFamily = `
 // a parameter spelled like the package that only the results mention (first in the argument
 // list, so that nothing has imported that package before)
 type Res interface {
-	Resolve(foo string, n int) (*@{~/d/bar}.T, error)
+	Resolve(one string, n int) (*@{~/q/one}.T, error)
 }
 
 type Two interface {
